@@ -144,7 +144,9 @@ func runCancelCase(c *Case) string {
 	if wait(isReturned, grace) {
 		ret = 1
 	}
-	if ended && wait(func() bool { return atomic.LoadInt32(&probe.teardowns) >= atomic.LoadInt32(&probe.subs) && atomic.LoadInt32(&probe.subs) > 0 }, grace) {
+	if ended && wait(func() bool {
+		return atomic.LoadInt32(&probe.teardowns) >= atomic.LoadInt32(&probe.subs) && atomic.LoadInt32(&probe.subs) > 0
+	}, grace) {
 		rel = 1
 	}
 	e := 0
